@@ -57,6 +57,13 @@ func mirrorExec(c *Ctx, op string) {
 	tgtKind = strings.TrimSuffix(tgtKind, "@")
 	tgtOther := strings.HasSuffix(tgtKind, "+") // the target warehouse received a mirror of another ware earlier
 	tgtKind = strings.TrimSuffix(tgtKind, "+")
+	tgtAbsent := strings.HasSuffix(tgtKind, "^") // the target warehouse directory does not exist (its parent does)
+	tgtKind = strings.TrimSuffix(tgtKind, "^")
+	warmCache := strings.HasSuffix(tgtKind, "=") // this host's fileset cache already holds W (it was unpacked here before)
+	tgtKind = strings.TrimSuffix(tgtKind, "=")
+	if tgtAbsent {
+		os.Remove(tgt)
+	}
 	if tgtKind != "ca" {
 		tgtBlocked = false // at a single-file address nothing can stand in the way but an object *at* the address
 	}
@@ -197,6 +204,11 @@ func mirrorExec(c *Ctx, op string) {
 			return fn.mirror(ctx, oid, whAddr(tgtKind, tgt), []api.WarehouseLocation{whAddr("ca", master)}, rio.Monitor{})
 		})
 	}
+	if warmCache {
+		safeCall(func() (api.WareID, error) {
+			return fn.unpack(ctx, id, "-", uf, rio.Placement_None, []api.WarehouseLocation{whAddr("ca", master)}, rio.Monitor{})
+		})
+	}
 	// which source is picked: the model's pick
 	c.EmitR(op+" #pick", "pick 0 "+strings.Join(pickToks, ";"), pickOnly(id, sources))
 	_, err1, pan1 := safeCall(func() (api.WareID, error) {
@@ -207,6 +219,13 @@ func mirrorExec(c *Ctx, op string) {
 		res = "panic"
 	} else if err1 != nil {
 		res = "err " + catOf(err1)
+	}
+	if tgtAbsent {
+		if _, e := os.Lstat(tgt); e == nil && res != "ok" {
+			c.PropFail("mirror-target-polluted", fmt.Sprintf("a mirror into a warehouse that does not exist failed (%s) and left the directory %q behind", res, filepath.Base(tgt)), op)
+			c.PropFail("scan-creates-files", fmt.Sprintf("a failed mirror (%s) created the directory %q on the local filesystem", res, filepath.Base(tgt)), op)
+		}
+		c.H("tgt-absent:" + strings.Fields(res)[0])
 	}
 	c.H("firstholder:" + firstHolder)
 	c.H("res:" + strings.Fields(res)[0])
@@ -241,6 +260,11 @@ func mirrorExec(c *Ctx, op string) {
 	switch {
 	case otherAtAddr:
 		firstHolder = "skip"
+	case tgtAbsent && tgtKind == "ca":
+		firstHolder = "skip" // a content-addressed warehouse that does not exist is not created by a mirror: whatever the sources, an error
+		if res == "ok" {
+			c.PropFail("mirror-accepted-bad", "a mirror into a ca+file warehouse that does not exist answered success", op)
+		}
 	}
 	switch firstHolder {
 	case "skip":
@@ -339,7 +363,7 @@ func mirrorExec(c *Ctx, op string) {
 		}
 	}
 	// ---- the store model (Rio/Model/MirrorStore.lean): answer, what the target alone then serves, mirroring again
-	if !tgtFull && !tgtBlocked && !tgtShard && !tgtDangling && firstHolder != "dirware" && res != "panic" {
+	if !tgtFull && !tgtBlocked && !tgtShard && !tgtDangling && !tgtAbsent && firstHolder != "dirware" && res != "panic" {
 		kind := map[string]string{"ca": "ca", "file": "mono"}[tgtKind]
 		tstate := "empty"
 		if tgtOther {
@@ -562,8 +586,10 @@ func mirrorEngine(c *Ctx) {
 			tk = "file"
 		case k == 9:
 			tk = "file+"
+		case k == 6:
+			tk = "ca="
 		case k == 10:
-			tk = "ca"
+			tk = "ca^"
 		case k == 11:
 			tk = "file"
 		case k == 7:
@@ -578,6 +604,10 @@ func mirrorEngine(c *Ctx) {
 			tk += "@"
 		case c.Chance(1, 5):
 			tk = "ca%"
+		case c.Chance(1, 4):
+			tk += "="
+		case c.Chance(1, 5):
+			tk = "ca^"
 		}
 		mirrorExec(c, fmt.Sprintf("mirror %s %s %s %s", fmtName, tk, strings.Join(cs, ","), filesetTok(fsx)))
 	}
